@@ -465,7 +465,7 @@ func c10r4(c *core.Ctx) {
 		c.Check(fresh, "subs-map-per-session", f.Pos(), "every session gets its own subscription map", "sessions do not get a fresh subscription map")
 	}
 	if pk := p.Pkg("hap"); pk != nil {
-		if tn, ok := pk.Types.Scope().Lookup("session").(*types.TypeName); ok {
+		if tn := p.LookupType("hap", "session"); tn != nil {
 			if st, ok := tn.Type().Underlying().(*types.Struct); ok {
 				for i := 0; i < st.NumFields(); i++ {
 					if p.CanonFieldName(st.Field(i)) == "subs" {
